@@ -32,6 +32,8 @@ func init() {
 			{ID: "C09.12", Desc: "a lifetime too large to represent saturates instead of counting as absent (else the response is never fresh)", Run: func(c *Ctx) { ruleSaturation(c, "C09.12") }, MinSites: 2},
 			{ID: "C09.13", Desc: "unreserved escapes are decoded by the predicate alone", Run: func(c *Ctx) { ruleDecodeByPredicateOnly(c, "C09.13") }, MinSites: 1},
 			{ID: "C09.14", Desc: "the entry parser splits the metadata line on the writer's separator (an id may contain a space)", Run: func(c *Ctx) { ruleMetaLineSeparator(c, "C09.14") }, MinSites: 1},
+			{ID: "C09.15", Desc: "a path is unescaped with the path rules", Run: func(c *Ctx) { rulePathUnescape(c, "C09.15") }, MinSites: 1},
+			{ID: "C09.16", Desc: "a cache reopened with its DSN uses the DSN's key", Run: func(c *Ctx) { ruleDSNKeyFirst(c, "C09.16") }, MinSites: 1},
 		},
 	})
 }
